@@ -149,6 +149,17 @@ CHECKS = {
         "(thorough) with fingerprint merge audit.",
    technique="explicit-state BFS of the implementation with a grammar automaton oracle (replay + fork snapshots)",
    ref="3/C06"),
+ "C17": dict(cat="model_checking",
+   text="Explicit-state BFS over play variants (speed, loops, start step, sync, priority), stop, pause, resume, advance, "
+        "step_back, update(speed) and a second show on the same light, with time choices on time / woken late / before "
+        "the deadline; reference schedule per running show from the statement: the step and played/looped/completed/"
+        "stopped events of every transition must match, a step never runs early, the next step's timer must sit exactly "
+        "on the schedule grid (no drift after late wake-ups), a stopped show leaves no light entry under its context; "
+        "plus one long run (1000 loops, every 7th timer late) against the ideal grid.",
+   note="Trusted: virtual loop, RefShow in props/c17.py. What resume/advance/step_back do to a show still waiting for its "
+        "sync start is not judged. BFS depth 5 (quick) / 6 (thorough), at most two shows at a time.",
+   technique="explicit-state BFS of the implementation with a reference schedule (replay + fork snapshots)",
+   ref="3/C17"),
 }
 NOT_YET = "check not built yet in this revision (planned, see DESIGN.md section 7)"
 
